@@ -22,7 +22,7 @@ class C12(SessionCheck):
         out = []
         trs = ['unix', 'tls', 'ssh']
         for tr in trs:
-            for how in ('close_session', 'with', 'with-exception'):
+            for how in ('close_session', 'with', 'with-exception', 'with-transport-error'):
                 for infl in (False, True):
                     if tier == 'quick' and tr in ('tls', 'ssh') and (infl or how == 'with'):
                         continue
@@ -31,6 +31,8 @@ class C12(SessionCheck):
             out.append({'kind': 'e2e', 'life': True, 'sc': {'mode': 'close', 'transport': tr, 'how': 'with', 'no_close_reply': True}})
             for what in ('bad-hello', 'close-at-once'):
                 out.append({'kind': 'e2e', 'life': True, 'sc': {'mode': 'failed-hello', 'transport': tr, 'what': what, 'timeout': 0.6}})
+            if tr == 'ssh':
+                out.append({'kind': 'e2e', 'life': True, 'sc': {'mode': 'failed-auth', 'transport': 'ssh'}})
             out.append({'kind': 'e2e', 'life': True, 'sc': {'mode': 'cycles', 'transport': tr, 'n': 4 if tier == 'quick' else 40}})
         return out
 
@@ -63,7 +65,7 @@ class C12(SessionCheck):
                     return ('C12:listener-after-close' + key, 'a listener was invoked after close had returned')
                 if not str(io.get('later_request', '')).startswith('TransportError'):
                     return ('C12:later-request-not-refused' + key, 'a request after close gave %s' % io.get('later_request'))
-                if sc.get('how') == 'with-exception' and not io.get('body_exception_propagated'):
+                if sc.get('how') in ('with-exception', 'with-transport-error') and not io.get('body_exception_propagated'):
                     return ('C12:body-exception-lost' + key, 'the with-body exception did not propagate')
                 if sc.get('inflight') and io.get('inflight', {}).get('out') == 'reply':
                     return ('C12:inflight-got-reply' + key, 'the unanswered in-flight request returned a reply')
@@ -76,6 +78,13 @@ class C12(SessionCheck):
                     return ('C12:thread-leak-after-failed-connect' + key, 'session thread still alive after a failed connect')
                 if not io.get('eof_seen'):
                     return ('C12:socket-leak-after-failed-connect' + key, 'the peer never saw the connection closed after a failed connect')
+            elif sc['mode'] == 'failed-auth':
+                if not str(io.get('connect', '')).startswith('exc:'):
+                    return ('C12:failed-auth-did-not-fail' + key, 'connect with wrong credentials gave %s' % io.get('connect'))
+                if not io.get('server_sees_closed'):
+                    return ('C12:transport-open-after-failed-auth' + key, 'the SSH connection is still open towards the peer after a failed authentication')
+                if io.get('leaked_threads', 0) > 0:
+                    return ('C12:thread-leak-after-failed-auth' + key, '%d transport thread(s) left after a failed authentication' % io['leaked_threads'])
             elif sc['mode'] == 'cycles':
                 if io.get('errors'):
                     return ('C12:cycle-error' + key, str(io['errors'][:2]))
